@@ -116,3 +116,44 @@ func init() {
 		return callSSA(i, fr, token.NoPos, fn, []value{name, bytesToValues(data)}, nil), true
 	}
 }
+
+// influxdb1-client/models builds strings from byte slices through reflect.SliceHeader and
+// unsafe.Pointer; semantically that is string(b).
+func init() {
+	libIntrinsics["github.com/influxdata/influxdb1-client/models.unsafeBytesToString"] = func(i *interpreter, fr *frame, a []value) (value, bool) {
+		tb := types.NewSlice(types.Typ[types.Byte])
+		if v, ok := i.symConv(types.Typ[types.String], tb, a[0]); ok {
+			return v, true
+		}
+		return conv(types.Typ[types.String], tb, a[0]), true
+	}
+}
+
+// bytealg.Compare / CompareString on concrete bytes (symbolic input aborts the path).
+func init() {
+	cmp := func(i *interpreter, fr *frame, a []value) (value, bool) {
+		x, y := bytesOf(a[0]), bytesOf(a[1])
+		for k := 0; k < len(x) && k < len(y); k++ {
+			bx, ok1 := x[k].(uint8)
+			by, ok2 := y[k].(uint8)
+			if !ok1 || !ok2 {
+				panic(pathAbort{"unsupported: bytealg.Compare on symbolic bytes"})
+			}
+			if bx != by {
+				if bx < by {
+					return int(-1), true
+				}
+				return int(1), true
+			}
+		}
+		switch {
+		case len(x) < len(y):
+			return int(-1), true
+		case len(x) > len(y):
+			return int(1), true
+		}
+		return int(0), true
+	}
+	libIntrinsics["internal/bytealg.Compare"] = cmp
+	libIntrinsics["internal/bytealg.CompareString"] = cmp
+}
